@@ -146,11 +146,11 @@ Expect ==
             sqe |-> SqE([i \in 1..Len(c.x) |-> RNE(c.x[i])], [i \in 1..Len(c.y) |-> RNE(c.y[i])]),
             quantum |-> [i \in 1..Len(c.x) |-> Quantum(c.x[i])]]
       [] c.k = "rb8" ->
-           \* stored: admissible integers of the quantised UNIT vector of x.  Query of ComputeDistanceToVector: the RAW
-           \* vector y goes through Quantizer.Quantize (only hnsw search normalises its query), qy is exact unless a tie
+           \* stored vector x and query y obey the same law: the UNIT vector is quantised (ComputeDistanceToVector and
+           \* hnsw search normalise the query on cosine indexes of every precision); the distance is the cosine distance
+           \* of the two integer vectors, for any admissible combination where a rounding boundary is ambiguous
            [allowed |-> [i \in 1..Len(c.x) |-> NQAllowed(c.x[i], N2(c.x), c.a, c.den)],
-            qy |-> QVec(c.y, c.a), ny |-> N2(QVec(c.y, c.a)),
-            exacty |-> \A i \in 1..Len(c.y) : Abs(c.y[i]) >= c.a \/ ~Tie(127 * c.y[i], c.a)]
+            allowedy |-> [i \in 1..Len(c.y) |-> NQAllowed(c.y[i], N2(c.y), c.a, c.den)]]
 
 (* ------------------------------ theorems ------------------------------- *)
 \* every kernel is symmetric, non-negative where it is a distance, zero between a vector and itself
@@ -184,6 +184,8 @@ Inv_Rb8 == c.k = "rb8" =>
         /\ \A q \in NQAllowed(c.x[i], N2(c.x), c.a, c.den) : Sgn(q) \in {0, Sgn(c.x[i])}
         /\ (N2(c.x) > 0 /\ c.den * c.den * c.x[i] * c.x[i] >= c.a * c.a * N2(c.x) => m = 127)
         /\ \A j \in 1..Len(c.x) : Abs(c.x[i]) <= Abs(c.x[j]) => m <= NQmag(c.x[j], N2(c.x), c.a, c.den)
+        \* the query is quantised by the same rule
+        /\ \A j \in 1..Len(c.y) : NQAllowed(c.y[j], N2(c.y), c.a, c.den) \subseteq -127..127
 
 \* float16: one rounding step
 Inv_F16 == c.k = "f16" =>
